@@ -198,18 +198,21 @@ class SshServer:
         self.done = False
 
     # -- output ----------------------------------------------------------
-    def emit(self, sock, kind, data):
+    def emit(self, sock, kind, data, perturbation=False):
         cfg = self.cfg
         items = [data]
         mut = cfg.get('mutate')
         if mut is not None:
             items = mut(self.n, kind, self.out_idx, data)
+        tainted = perturbation or items != [data]
         self.out_idx += 1
         seg = cfg.get('segment')
         for it in items:
             if isinstance(it, (bytes, bytearray)) and seg:
                 for i in range(0, len(it), seg):
-                    sock.push(it[i:i + seg])
+                    sock.push(it[i:i + seg], tainted)
+            elif isinstance(it, (bytes, bytearray)):
+                sock.push(it, tainted)
             else:
                 sock.push(it)
             if it in (EOF, RESET):
@@ -218,7 +221,7 @@ class SshServer:
     def emit_packet(self, sock, kind, payload):
         for _ in range(self.cfg.get('debug', 0)):
             dbg = bytes([MSG_DEBUG, 0]) + wire.string(b'debug message') + wire.string(b'')
-            self.emit(sock, 'debug', wire.frame(dbg))
+            self.emit(sock, 'debug', wire.frame(dbg), perturbation=True)
         self.emit(sock, kind, wire.frame(payload))
 
     # -- events ----------------------------------------------------------
@@ -245,8 +248,6 @@ class SshServer:
         self.emit_packet(sock, 'kexinit', payload)
 
     def on_data(self, sock, data):
-        if self.done:
-            return
         try:
             evs = self.dec.feed(data)
         except Exception as e:  # the independent decoder must never take the harness down
@@ -255,7 +256,8 @@ class SshServer:
         for kind, val in evs:
             if kind == 'banner':
                 self.world.log(ev='send', n=self.n, type='banner', line=val.decode('latin-1'))
-                self.on_client_banner(sock, val)
+                if not self.done:
+                    self.on_client_banner(sock, val)
             else:
                 self.on_packet(sock, val)
         for v in self.dec.violations:
@@ -305,6 +307,8 @@ class SshServer:
                   key=[x.decode('latin-1') for x in ck['key']], trailing=ck['trailing'])
         elif t == MSG_KEXDH_INIT:
             w.log(ev='send', n=self.n, type=30)
+            if self.done:
+                return
             blob = self._hostkey_for()
             if blob is None:
                 self.emit(sock, 'eof', b'')
@@ -326,6 +330,8 @@ class SshServer:
             if gex is not None:
                 bits = gex_select(gex['style'], gex['moduli'], mn, pref, mx)
             w.log(ev='send', n=self.n, type=34, min=mn, pref=pref, max=mx, answer=bits if bits is not None else 0)
+            if self.done:
+                return
             if bits is None:
                 if gex is not None and gex.get('refuse', 'disconnect') == 'stall':
                     sock.push(STALL)
@@ -339,6 +345,8 @@ class SshServer:
             self.emit_packet(sock, 'gexgroup', grp)
         elif t == MSG_GEX_INIT:
             w.log(ev='send', n=self.n, type=32)
+            if self.done:
+                return
             blob = self._hostkey_for()
             if blob is None:
                 blob = ed25519_blob()
